@@ -200,7 +200,7 @@ repaired ones -/
 def B (s : String) : Bytes := s.toList
 def G : Bytes := B "GET"
 def anySat : Nat → Bytes → Bool := fun _ _ => true
-def reg (m p : String) (cons : List (Bytes × Nat) := []) : Reg := ⟨B m, [], B p, cons⟩
+def reg (m p : String) (cons : List (Bytes × Nat) := []) : Reg := ⟨B m, [], B p, cons, none⟩
 /-- a hash that separates all byte strings (base-257 reading) -/
 def polyHash (bs : Bytes) : Nat := bs.foldl (fun h c => h * 257 + c.toNat + 1) 0
 def onOpts : Opts := ⟨true, 0, 0, false, none⟩
